@@ -6,7 +6,10 @@ single-shot cells are lives with one verification.  A message carries a LIST of 
 Response around a signed Assertion: two signatures, varied independently).  Observed per message:
 accept/reject AND, per signed element, every certificate handed to a verifier (the file named on the
 xmlsec1 command line, attributed to the element by --node-id; for detached signatures the public key that
-reaches the RSA primitive)."""
+reaches the RSA primitive) AND how xmlsec1 was invoked (version it reported, confined to the certificate file or
+not, --lax-key-search).  Between the verifications the receiver may reload its metadata, have certificates looked
+up for another purpose (the ENCRYPTION certificates of the peer: every Response an IdP produces) and have its
+xmlsec1 binary replaced by another version (1.2.x / 1.3.x command lines and output formats)."""
 import base64
 import copy
 import hashlib
@@ -44,12 +47,28 @@ RULE = ("(A) complete product: signer key {issuer signing, issuer rotated signin
         "each, fallback flag, content altered under the inner / the outer signature only, Assertion plain or encrypted, "
         "issuer metadata shapes -- for the receiver that insists on a signed Response and for the one that insists on signed "
         "Assertions; the same messages around metadata reloads; seeded random doubly signed messages in random lives.  "
+        "(E) the verifier itself: the xmlsec1 binary reports version {1.2.20, 1.3, 1.3.0, 1.3.7, 1.4.0, a text that is no "
+        "version} (default 1.2.37) -- command line and verdict format differ from 1.3 on -- x kind x signer x KeyInfo {none, "
+        "signer cert, victim cert, bare RSAKeyValue} x flag (complete for 1.3.7, the rows that matter for the others), doubly "
+        "signed / encrypted messages, the binary replaced in the middle of a life (upgrade, downgrade, around a reload).  "
+        "(F) what the receiver did besides verifying: certificates of the issuer asked for under ANOTHER use (encryption: "
+        "MetadataStore.certs directly, an IdP producing a plain / an encrypted Response for the SP), another descriptor, or by "
+        "ANOTHER entity instance of the process with other metadata -- before the first verification, after it, before / after "
+        "a reload, signing-then-encryption and the reverse -- over 5 metadata shapes whose encryption-only key differs from "
+        "the signing key(s) (encryption first, use-less + encryption, a second role descriptor, encryption-only issuer); "
+        "seeded random lives over verifications / reloads / failed reloads / lookups / replaced binaries.  "
         "Real RSA, real metadata; "
         "observed per message: accept/reject AND, per signed element (xmlsec1 --node-id), the certificates handed to the "
-        "verifier.  non-trivial = every case "
+        "verifier (the key material of the message's KeyInfo too when the command line does not confine xmlsec1 to the "
+        "file); per life every distinct (reported version, confined, --lax-key-search) of the xmlsec1 --verify runs.  "
+        "non-trivial = every case "
         "except (issuer key, that entity, no KeyInfo, default flag)")
 TRUSTED = ["xmlsec1 stand-in restricted to --pubkey-cert-pem as invoked by the unmodified CryptoBackendXmlSec1 (a certificate "
            "file that does not load = non-zero exit, as the binary does)",
+           "model of xmlsec1's key selection and versions in harness/c03.py:C03Popen (around the shared 1.2.37 stand-in): "
+           "--enabled-key-data other than exactly raw-x509-cert enables the key material of the message's ds:KeyInfo, which "
+           "the binary then prefers to the certificate file; from 1.3 on the verdict reads `Verification status: OK/FAILED` "
+           "and the file's key is used only under --lax-key-search; `--version` answers the version of the case",
            "renderer harness/render.py (incl. independently made detached signatures)",
            "abstraction certificate octets -> symbolic key / 'no certificate'",
            "observation hook on saml2.cryptography.asymmetric.key_verify (records the public key, then calls the original)",
@@ -60,14 +79,17 @@ TRUSTED = ["xmlsec1 stand-in restricted to --pubkey-cert-pem as invoked by the u
            "C03/Source2.v: mdstore.MetaData.certs.extract_certs (nested function), mdstore.MetaData.certs (the walk, with "
            "the nested def cut out), sigver.SecurityContext._check_signature (two statement blocks: certificate selection "
            "up to `raise MissingKey`, verification loop from `verified = False` to `return item`), "
-           "request.Request._do_redirect_sig_check, response.AuthnResponse._assertion (its first statement: the signature "
+           "request.Request._do_redirect_sig_check, sigver.CryptoBackendXmlSec1.validate_signature (the statements that "
+           "build the --verify command line), response.AuthnResponse._assertion (its first statement: the signature "
            "step), response.AuthnResponse.parse_assertion (the statement that sends the plain assertions through "
            "_assertion); the statement blocks are cut out of the methods by harness/c03.py (work/C03/slices/), which adds "
            "the function header and, where the block falls through, `return certs` / `return True`"]
 ASSUMPTIONS = ["ideal signatures (hypotheses verify_spec, sign_inj of C03/Proofs.v); real RSA is executed in the correspondence",
                "each entity is described by one metadata source (multi-source order is C11)",
                "metadata changes through Entity.reload_metadata / MetadataStore.reload (MDQ refresh needs a network peer: "
-               "not exercised)"]
+               "not exercised)",
+               "xmlsec1 >= 1.3 behaves as its release notes say (strict key lookup unless --lax-key-search; new verdict lines); "
+               "no 1.3 binary is installed"]
 
 KEYS = {"idp": 1, "idp2": 2, "idpenc": 3, "other": 4, "sp": 5, "attacker": 6}
 SIGNERS = ["idp", "idp2", "idpenc", "other", "sp", "attacker"]
@@ -165,25 +187,102 @@ def classify_file(path):
 
 # ------------------------------------------------------------------------------------ observation hooks
 HANDED = []
+CALLS = []                                  # every xmlsec1 --verify run: [version text, confined, lax]
+DEFAULT_VERSION = "1.2.37"                  # what the shared stand-in reports
+ENGINE = {"version": DEFAULT_VERSION}       # the xmlsec1 binary "installed" right now
+VERSIONS = ["1.2.20", "1.3", "1.3.0", "1.3.7", "1.4.0", "unknown"]
+
+
+def vnums(text):
+    """CryptoBackend.version_nums, restated: dotted numbers -> tuple, anything else -> (0, 0, 0)"""
+    try:
+        return tuple(int(t) for t in text.split("."))
+    except ValueError:
+        return (0, 0, 0)
+
+
+def keyinfo_material(xml_path, node_id):
+    """Key material that xmlsec1 finds in the ds:KeyInfo of the signature at / below the element with that ID when
+    its key data is not confined: the first X509Certificate, else a bare RSAKeyValue (what the shared stand-in
+    prefers over the certificate file in that case).  -> list of symbolic certificates (at most one)."""
+    import xml.etree.ElementTree as ET
+
+    ds = "{http://www.w3.org/2000/09/xmldsig#}"
+    try:
+        root = ET.parse(xml_path).getroot()
+        start = root
+        if node_id:
+            hits = [e for e in root.iter() if e.get("ID") == node_id]
+            if not hits:
+                return []
+            start = hits[0]
+        sig = next((e for e in start.iter() if e.tag == ds + "Signature"), None)
+        ki = sig.find(ds + "KeyInfo") if sig is not None else None
+        if ki is None:
+            return []
+        x = ki.find(".//" + ds + "X509Certificate")
+        if x is not None and (x.text or "").strip():
+            return [_by_body.get("".join((x.text or "").split()), ["G", 99])]
+        mod = ki.find(".//" + ds + "RSAKeyValue/" + ds + "Modulus")
+        if mod is not None:
+            n = int.from_bytes(base64.b64decode("".join((mod.text or "").split())), "big")
+            return [["G", _by_modulus.get(n, 99)]]
+    except Exception:  # noqa
+        pass
+    return []
 
 
 class C03Popen:
-    """The stand-in behind saml2.sigver.Popen, with (a) a record of every certificate file named on a
-    --verify command line, made before the stand-in runs, and (b) the process boundary restored: whatever
-    goes wrong inside the binary (e.g. a certificate file that does not load) is a non-zero exit, never a
-    Python exception in the caller (the shared FakePopen lets such exceptions through)."""
+    """The stand-in behind saml2.sigver.Popen, with
+    (a) a record of every certificate file named on a --verify command line, made before the stand-in runs;
+    (b) the process boundary restored: whatever goes wrong inside the binary (e.g. a certificate file that does
+        not load) is a non-zero exit, never a Python exception in the caller (the shared FakePopen lets such
+        exceptions through);
+    (c) the VERSION dimension of the binary (the shared stand-in is 1.2.37 only): `--version` answers
+        ENGINE["version"]; from 1.3 on the verdict is printed as `Verification status: OK / FAILED` and the key of
+        the certificate file is used only under --lax-key-search (strict key lookup is the default there);
+    (d) xmlsec1's key selection made observable: a --verify command line whose --enabled-key-data is not exactly
+        raw-x509-cert does not confine the binary to the file -- the key material in the message's ds:KeyInfo is
+        then enabled, PREFERRED by the binary (shared stand-in, CVE-2021-21239 behaviour) and recorded as handed
+        to the verifier next to the file."""
 
     def __init__(self, com_list, stderr=None, stdout=None, **kw):
         argv = list(com_list[1:])
-        if "--verify" in argv:
+        ver = ENGINE["version"]
+        new = vnums(ver) >= (1, 3)
+        if "--version" in argv:
+            self.returncode, self._out, self._err = 0, ("xmlsec1 %s (openssl)\n" % ver).encode(), b""
+            return
+        verify = "--verify" in argv
+        refuse = False
+        if verify:
             node = argv[argv.index("--node-id") + 1] if "--node-id" in argv[:-1] else ""
             for i, a in enumerate(argv[:-1]):
                 if a.startswith("--pubkey-cert-") or a == "--pubkey-pem":
                     HANDED.append([node, classify_file(argv[i + 1])])
+            kd = argv[argv.index("--enabled-key-data") + 1].split(",") if "--enabled-key-data" in argv[:-1] else None
+            confined = kd is not None and set(kd) <= {"raw-x509-cert"}
+            lax = "--lax-key-search" in argv
+            CALLS.append([ver, confined, lax])
+            carried = []
+            if not confined:
+                carried = keyinfo_material(argv[-1], node or None)
+                for c in carried:
+                    HANDED.append([node, c])
+                if kd is not None:      # the shared stand-in reads any list that names raw-x509-cert as confined
+                    i = argv.index("--enabled-key-data")
+                    del argv[i:i + 2]
+            refuse = new and not lax and not carried
         try:
-            self.returncode, self._out, self._err = env.standin().main(argv)
+            if refuse:
+                self.returncode, self._out, self._err = 1, b"", b"Error: key not found (strict key search)\n"
+            else:
+                self.returncode, self._out, self._err = env.standin().main(argv)
         except Exception as e:  # noqa
             self.returncode, self._out, self._err = 1, b"", ("Error: %s: %s\n" % (type(e).__name__, e)).encode()
+        if verify and new:
+            ok = self.returncode == 0 and b"OK" in self._err.splitlines()
+            self._err = (b"Verification status: OK\n" if ok else b"Verification status: FAILED\n" + self._err)
 
     def communicate(self, *a, **kw):
         return self._out, self._err
@@ -593,8 +692,163 @@ def gen_multi(rng, thorough):
     return cases
 
 
+def eng(version):
+    return {"op": "engine", "version": version}
+
+
+def lk(via, ent, use, descriptor="any", md=None):
+    o = {"op": "lookup", "via": via, "ent": ent, "use": use, "descriptor": descriptor}
+    if md is not None:
+        o["md"] = md
+    return o
+
+
+XML_KINDS = ["response", "assertion", "authnreq_post", "logoutreq_soap"]
+
+
+def gen_engine(rng, thorough):
+    """(E) the verifier itself: the xmlsec1 binary reports another VERSION (1.2.x / 1.3 / 1.3.x / 1.4 / a text that is
+    no version) -- the code adapts its command line (--lax-key-search) and the way it reads the verdict to it; the
+    key-data confinement must be there for every version.  Cells: version x kind x signer x KeyInfo {none, signer
+    cert, victim cert, bare RSAKeyValue} x flag; doubly signed and encrypted messages; the binary replaced in the
+    middle of a life (upgrade and downgrade), around reloads."""
+    cases = []
+    for v in VERSIONS:
+        full = thorough or v == "1.3.7"
+        for kind in (XML_KINDS if full else ("response", "authnreq_post")):
+            for signer in (("idp", "idp2", "idpenc", "other", "attacker") if full else ("idp", "attacker")):
+                for ki in (KEYINFO if full else ("none", "signer", "rsa")):
+                    for only_md in ((True, False) if full else (True,)):
+                        for claimed in (("E", "U") if full and signer in ("idp", "attacker") and ki != "victim" else ("E",)):
+                            cases.append(life(RECV_OF_KIND[kind], only_md, G0(), [eng(v), chk(kind, signer, claimed, ki)], "E"))
+        # the detached path does not go through the binary: unaffected by its version
+        cases.append(life("idp", True, G0(), [eng(v), chk("redirect", "idp", "E"), chk("redirect", "attacker", "E")], "E"))
+        # several signatures in one message, the Assertion plain or encrypted (decryption runs the binary too)
+        for recv in ("sp_response", "sp_assertion"):
+            ops = [eng(v)]
+            for so, si, ko, ki, enc in (("idp", "idp2", "none", "none", False), ("idp", "attacker", "none", "rsa", False),
+                                        ("attacker", "idp", "rsa", "none", False), ("idp", "attacker", "signer", "signer", True),
+                                        ("idp", "idp", "rsa", "rsa", True), ("attacker", "attacker", "rsa", "rsa", False)):
+                ops.append(chk2(sg(so, "E", ko), sg(si, "E", ki), enc))
+            cases.append(life(recv, True, G0(), ops, "E"))
+    # the binary is replaced while the receiver lives: every ordered pair of an old-style and a new-style version
+    gens = generations()
+    n = 0
+    for recv, kinds in SEQ_RECV[:5]:
+        for a, b in (("1.2.37", "1.3.7"), ("1.3.7", "1.2.37"), ("1.2.20", "1.4.0"), ("1.3.0", "unknown"), ("unknown", "1.3")):
+            if not thorough and n % 2 and recv not in ("sp_response",):
+                n += 1
+                continue
+            n += 1
+            pr = lambda k: [chk(kinds[(k + i) % len(kinds)], sgn, cl, ki) for i, (sgn, cl, ki) in enumerate(
+                (("idp", "E", "none"), ("attacker", "E", "rsa"), ("attacker", "E", "signer"), ("idp2", "E", "victim"),
+                 ("idpenc", "E", "none"), ("other", "O", "rsa")))]
+            ops = [eng(a)] + pr(0) + [eng(b)] + pr(1) + [{"op": "reload", "md": gens["g1"], "via": "entity"}] + pr(2)
+            ops += [eng(a)] + pr(3)
+            cases.append(life(recv, True, G0(), ops, "E"))
+    return cases
+
+
+def enc_shapes():
+    """issuers whose encryption-only key differs from their signing key(s), in several document shapes"""
+    o_enc = ent("O", [[["signing", "other"], ["encryption", "attacker"]]])
+    return {
+        "s0": G0(),                                                                              # signing x2, then encryption
+        "s1": [ent("E", [[["encryption", "idpenc"], ["signing", "idp"]]]), o_enc],               # encryption first
+        "s2": [ent("E", [[[None, "idp"], ["encryption", "idpenc"]]]), o_enc],                    # use-less + encryption
+        "s3": [ent("E", [[["signing", "idp"], ["encryption", "idpenc"]], [["signing", "idp2"]]]), o_enc],  # AA role: other key
+        "s4": [ent("E", [[["encryption", "idpenc"]]]), o_enc],                                   # encryption-only issuer
+    }
+
+
+# (signer, claimed issuer): the forgeries with an encryption-only key first
+LPROBES = [("idpenc", "E"), ("idp", "E"), ("attacker", "O"), ("idp2", "E"), ("other", "O"), ("attacker", "E"), ("idpenc", "O")]
+
+
+def gen_lookups(rng, thorough):
+    """(F) what the receiver did BEFORE / BETWEEN the verifications besides verifying: certificates of the issuer asked
+    for under ANOTHER use (encryption), another descriptor or by another entity instance of the process -- in every
+    order relative to the first verification and to reloads.  MetaData.certs is read-only: none of this may change
+    which certificates a signature is checked against."""
+    cases = []
+    shapes = enc_shapes()
+    recvs = [("idp", ["authnreq_post"]), ("idp", ["redirect"]), ("sp_response", ["response"]),
+             ("idp", ["logoutreq_soap"]), ("sp_assertion", ["assertion"]), ("idp", ["authnreq_post", "logoutreq_soap", "redirect"])]
+
+    def lprobes(kinds, start=0, only=None):
+        return [chk(kinds[(start + i) % len(kinds)], sgn, cl) for i, (sgn, cl) in enumerate(LPROBES) if only is None or i < only]
+
+    foreign = [ent("E", [[["signing", "attacker"], ["encryption", "idp"]]]), ent("O", [[["signing", "idpenc"]]])]
+    for ri, (recv, kinds) in enumerate(recvs):
+        idp = recv == "idp"
+        # the ways certificates get looked up without a verification
+        looks = [[lk("certs", "E", "encryption")], [lk("certs", "E", "encryption", "role")],
+                 [lk("certs", "O", "encryption"), lk("certs", "E", "encryption")],
+                 [lk("instance", "E", "signing", md=foreign), lk("instance", "O", "signing", md=foreign)],
+                 [lk("certs", "E", "signing", "attribute_authority"), lk("certs", "E", "encryption", "attribute_authority")]]
+        if idp:
+            looks = [[lk("response", "E", "encryption")], [lk("response_enc", "E", "encryption")],
+                     [lk("response", "O", "encryption"), lk("response", "E", "encryption")]] + looks
+        for li, look in enumerate(looks):
+            for sname in sorted(shapes):
+                # quick tier: every shape for the encryption lookups on one receiver per verification path; the default
+                # shape (+ the one with a second role descriptor for the descriptor-specific lookups) elsewhere
+                main_look = li < 2 + 3 * idp
+                if not thorough and not (sname == "s0" or (ri < 3 and main_look) or (sname == "s3" and not main_look)):
+                    continue
+                md = shapes[sname]
+                # the lookup comes first; a verification comes first; lookup, reload, verification; reload, lookup, ...
+                cases.append(life(recv, True, md, look + lprobes(kinds), "F"))
+                if thorough or sname in ("s0", "s3") or li == 0:
+                    cases.append(life(recv, True, md, lprobes(kinds, 1, 2) + look + lprobes(kinds), "F"))
+                if thorough or (sname == "s0" and (li < 5 or ri < 3)) or (li == 0 and ri < 3):
+                    cases.append(life(recv, True, md, look + [{"op": "reload", "md": md, "via": ("entity", "store")[li % 2]}]
+                                      + lprobes(kinds, 2), "F"))
+                    other = shapes["s1" if sname != "s1" else "s0"]
+                    cases.append(life(recv, True, other, lprobes(kinds, 0, 3) + [{"op": "reload", "md": md, "via": "entity"}] + look
+                                      + lprobes(kinds, 1) + [{"op": "reload_bad", "how": "xml"}] + look + lprobes(kinds, 2, 3), "F"))
+        # signing asked first, then encryption, then verify -- and the reverse; both uses of both members interleaved
+        md = shapes["s0"]
+        cases.append(life(recv, True, md, [lk("certs", "E", "signing"), lk("certs", "E", "encryption")] + lprobes(kinds), "F"))
+        cases.append(life(recv, True, md, [lk("certs", "E", "encryption"), lk("certs", "E", "signing")] + lprobes(kinds), "F"))
+        cases.append(life(recv, False, shapes["s4"], [lk("certs", "E", "encryption")]
+                          + [chk(kinds[0], sgn, "E", "signer") for sgn in ("idpenc", "attacker", "idp")], "F"))
+    # seeded random lives over everything: verifications, reloads, failed reloads, lookups, replaced binaries
+    names = sorted(shapes)
+    gens = generations()
+    for _ in range(240 if thorough else 50):
+        recv, kinds = recvs[rng.randrange(len(recvs))]
+        only_md = rng.random() < 0.8
+        ops = []
+        for _ in range(rng.randint(5, 12)):
+            r = rng.random()
+            if r < 0.5:
+                sgn, cl = rng.choice(LPROBES + [("idpenc", "E")] * 3)
+                ops.append(chk(rng.choice(kinds), sgn, cl, rng.choice(["none", "none", "signer", "rsa"]) if not only_md else
+                               rng.choice(["none", "none", "none", "rsa"])))
+            elif r < 0.78:
+                via = rng.choice(["certs", "certs", "response", "response_enc", "instance"] if recv == "idp" else ["certs", "certs", "instance"])
+                o = lk(via, rng.choice(["E", "E", "O", "U"]), "encryption" if via.startswith("response") else rng.choice(["encryption", "encryption", "signing"]),
+                       rng.choice(["any", "any", "role", "attribute_authority"]) if via == "certs" else "any",
+                       md=foreign if via == "instance" else None)
+                ops.append(o)
+            elif r < 0.9:
+                mdx = shapes[rng.choice(names)] if rng.random() < 0.7 else gens[rng.choice(sorted(gens))]
+                ops.append({"op": "reload", "md": mdx, "via": rng.choice(["entity", "store"])})
+            elif r < 0.94:
+                ops.append({"op": "reload_bad", "how": rng.choice(["xml", "type"])})
+            else:
+                ops.append(eng(rng.choice(VERSIONS + [DEFAULT_VERSION])))
+        if not any(o["op"] == "check" for o in ops):
+            ops.append(chk(kinds[0], "idpenc", "E"))
+        cases.append(life(recv, only_md, shapes[rng.choice(names)], ops, "F"))
+    return cases
+
+
 def generate(ctx):
-    return gen_cells() + gen_shapes(ctx.rng, ctx.thorough) + gen_lives(ctx.rng, ctx.thorough) + gen_multi(ctx.rng, ctx.thorough)
+    # parts E and F come last: the seeded stream of the earlier parts (and so their cases) stays what it was
+    cases = gen_cells() + gen_shapes(ctx.rng, ctx.thorough) + gen_lives(ctx.rng, ctx.thorough) + gen_multi(ctx.rng, ctx.thorough)
+    return cases + gen_engine(ctx.rng, ctx.thorough) + gen_lookups(ctx.rng, ctx.thorough)
 
 
 # ------------------------------------------------------------------------------------ running the real code
@@ -759,15 +1013,56 @@ def run_check(rcv, recv, c):
     return {"accept": bool(accepted), "handed": handed, "exc": exc}
 
 
+def role_of_peer(recv):
+    return "idpsso" if recv.startswith("sp") else "spsso"
+
+
+def run_lookup(rcv, recv, o):
+    """Certificates of an entity are asked for, for another purpose than a verification (read-only in a correct
+    implementation).  via: certs = MetadataStore.certs(entity, descriptor, use) as an application may call it;
+    response / response_enc = the IdP produces a plain / an encrypted Response for that SP (Entity._response ->
+    has_encrypt_cert_in_metadata, _encrypt_assertion: the ENCRYPTION certificates); instance = ANOTHER entity
+    instance of the same kind, living in the same process with other metadata, does the lookup."""
+    eid = ids_for_recv(recv)[o["ent"]]
+    via = o["via"]
+    try:
+        if via in ("response", "response_enc") and not recv.startswith("sp"):
+            from saml2 import saml
+
+            resp = rcv.create_authn_response(
+                identity={}, in_response_to=None, destination=world.SP_ACS_POST, sp_entity_id=eid, userid="user-1",
+                name_id=saml.NameID(text="user-1", format=saml.NAMEID_FORMAT_PERSISTENT),
+                authn={"class_ref": saml.AUTHN_PASSWORD_PROTECTED, "authn_auth": world.IDP_ID},
+                sign_response=False, sign_assertion=False, encrypt_assertion=(via == "response_enc"))
+            return {"lookup": "EncryptedAssertion" in str(resp)}
+        target = rcv
+        if via == "instance":
+            target = make_receiver(recv, True, o["md"])
+            install_hooks()
+        desc = o.get("descriptor", "any")
+        res = target.metadata.certs(eid, role_of_peer(recv) if desc == "role" else desc, o["use"])
+        return {"lookup": [_by_body.get("".join(str(c).split()), ["G", 99]) for _, c in res]}
+    except Exception as e:  # noqa
+        return {"lookup": type(e).__name__}
+
+
 def observe(case):
     install_hooks()
+    ENGINE["version"] = DEFAULT_VERSION
+    del CALLS[:]
     rcv = receiver(case)
     install_hooks()     # world.make_* re-installs the plain stand-in
+    del CALLS[:]
     recv = case["recv"]
     steps = []
     for o in case["ops"]:
         if o["op"] == "check":
             steps.append(run_check(rcv, recv, o))
+        elif o["op"] == "lookup":
+            steps.append(run_lookup(rcv, recv, o))
+        elif o["op"] == "engine":
+            ENGINE["version"] = o["version"]
+            steps.append({"engine": o["version"]})
         elif o["op"] == "reload":
             conf = {"inline": md_xml(recv, o["md"])}
             try:
@@ -786,7 +1081,12 @@ def observe(case):
             except Exception as e:  # noqa
                 ok = type(e).__name__
             steps.append({"reload": ok})
-    return {"steps": steps}
+    ENGINE["version"] = DEFAULT_VERSION
+    calls = []
+    for c in CALLS:
+        if c not in calls:
+            calls.append(list(c))
+    return {"steps": steps, "calls": calls}
 
 
 # ------------------------------------------------------------------------------------ Coq terms
@@ -815,8 +1115,13 @@ def coq_out(st):
     return "(%s, [%s])" % (cq(bool(st["accept"])), "; ".join("[%s]" % "; ".join(coq_cert(h) for h in hs) for hs in st["handed"]))
 
 
+def coq_version(text):
+    return "[%s]" % "; ".join("%d%%nat" % n for n in vnums(text))
+
+
 def coq_case(case, obs):
     recv = case["recv"]
+    ids = ids_for_recv(recv)
     ops, outs = [], []
     for o, st in zip(case["ops"], obs["steps"]):
         if o["op"] == "check":
@@ -826,10 +1131,15 @@ def coq_case(case, obs):
             # a reload of well-formed metadata is a Reload in the model whatever the real call answered: a
             # refused reload then shows as a disagreement / failure of the following verifications
             ops.append("Reload (%s)" % coq_md(recv, o["md"]))
+        elif o["op"] == "lookup":
+            ops.append("Lookup %s %s" % (cq_id(ids[o["ent"]]), "Encryption" if o["use"] == "encryption" else "Signing"))
+        elif o["op"] == "engine":
+            ops.append("Engine %s" % coq_version(o["version"]))
         else:
             ops.append("ReloadFailed")
-    return "C03.Corr.mkseq (%s) %s [%s] [%s]" % (coq_md(recv, case["md"]), cq(bool(case["only_md"])), "; ".join(ops),
-                                               "; ".join(outs))
+    calls = "; ".join("(%s, %s, %s)" % (coq_version(v), cq(bool(c)), cq(bool(l))) for v, c, l in obs.get("calls", []))
+    return "C03.Corr.mkseq (%s) %s [%s] [%s] [%s]" % (coq_md(recv, case["md"]), cq(bool(case["only_md"])), "; ".join(ops),
+                                                  "; ".join(outs), calls)
 
 
 def nontrivial(case, obs):
@@ -845,8 +1155,13 @@ def nontrivial(case, obs):
 def histogram(cases, observed):
     h = {"by_part": {}, "by_recv": {}, "verifications": 0, "reloads": 0, "failed_reloads": 0, "reloads_refused": 0,
          "accepted": 0, "rejected": 0, "exceptions": {}, "handed_lengths": {}, "unreadable_handed": 0,
-         "ops_per_life": {}, "signatures_per_message": {}, "encrypted_assertions": 0}
+         "ops_per_life": {}, "signatures_per_message": {}, "encrypted_assertions": 0, "lookups": {}, "lookup_answers": {},
+         "engine_changes": {}, "xmlsec1_calls": {}, "verifications_by_engine": {}}
     for c, o in zip(cases, observed):
+        for v, conf, lax in o.get("calls", []):
+            k = "%s confined=%s lax=%s" % (v, conf, lax)
+            h["xmlsec1_calls"][k] = h["xmlsec1_calls"].get(k, 0) + 1
+        engine = DEFAULT_VERSION
         h["by_part"][c["part"]] = h["by_part"].get(c["part"], 0) + 1
         h["by_recv"][c["recv"]] = h["by_recv"].get(c["recv"], 0) + 1
         n = str(len(c["ops"]))
@@ -858,7 +1173,16 @@ def histogram(cases, observed):
                     h["reloads_refused"] += 1
             elif op["op"] == "reload_bad":
                 h["failed_reloads"] += 1
+            elif op["op"] == "lookup":
+                k = "%s %s %s %s" % (op["via"], op["ent"], op.get("descriptor", "any"), op["use"])
+                h["lookups"][k] = h["lookups"].get(k, 0) + 1
+                a = st["lookup"] if isinstance(st["lookup"], (str, bool)) else "%d certificate(s)" % len(st["lookup"])
+                h["lookup_answers"][str(a)] = h["lookup_answers"].get(str(a), 0) + 1
+            elif op["op"] == "engine":
+                engine = op["version"]
+                h["engine_changes"][engine] = h["engine_changes"].get(engine, 0) + 1
             else:
+                h["verifications_by_engine"][engine] = h["verifications_by_engine"].get(engine, 0) + 1
                 h["verifications"] += 1
                 h["accepted" if st["accept"] else "rejected"] += 1
                 flat = [x for hs in st["handed"] for x in hs]
@@ -872,6 +1196,32 @@ def histogram(cases, observed):
                 if st["exc"]:
                     h["exceptions"][st["exc"]] = h["exceptions"].get(st["exc"], 0) + 1
     return h
+
+
+def shrink(case, ctx):
+    """The driver replays the SMALLEST failing life; that may be one whose only fault is how the verifier was invoked
+    or which certificate it was handed.  Look in the same life for the forgery that the fault lets through: every
+    verification in turn re-signed with a key the claimed issuer does not publish for signing (the unknown attacker
+    key carried as a bare RSAKeyValue / as a certificate, the issuer's encryption-only key); the first variant in
+    which such a message is ACCEPTED is the replay.  Otherwise the life as it is."""
+    try:
+        for signer, ki in (("attacker", "rsa"), ("attacker", "signer"), ("idpenc", "none"), ("attacker", "none")):
+            for i, o in enumerate(case["ops"]):
+                if o["op"] != "check" or o["kind"] == "signed_response" or o.get("claimed") != "E":
+                    continue
+                if not case["only_md"] and ki == "signer":
+                    continue
+                v = copy.deepcopy(case)
+                v["ops"][i].update(signer=signer, keyinfo=ki if o["kind"] != "redirect" else o["keyinfo"], tampered=False)
+                published = any(u != "encryption" and n == signer for e in case["md"] if e["label"] == "E"
+                                for role in e["roles"] for u, n in role)
+                if any(x["op"] == "reload" for x in case["ops"][:i]) or published:
+                    continue
+                if observe(v)["steps"][i].get("accept"):
+                    return v
+    except Exception:  # noqa
+        pass
+    return case
 
 
 def explain_term(t):
@@ -969,10 +1319,44 @@ def slice_certs_outer():
     def pick(body):
         i = _one([k for k, st in enumerate(body) if isinstance(st, ast.FunctionDef) and st.name == "extract_certs"])
         ok = i is not None and i >= 1 and _is_assign_to(body[i - 1], "ent") and i + 1 < len(body)
+        # side condition of the tie: `metadata.certs(...)` IS MetaData.certs -- no class of the module (MetadataStore,
+        # the loaders) overrides it; otherwise the theorem would speak of a function the receiver does not call
+        if _overriders("mdstore.py", "MetaData", "certs"):
+            return None
         return [(i - 1, i - 1), (i + 1, len(body) - 1)] if ok else None
 
     return _cut("mdstore.py", "MetaData.certs", "mdstore_certs_outer",
                 "def certs__outer(self, entity_id, descriptor, use):", pick)
+
+
+def _overriders(src_rel, base, method):
+    """classes of that module other than `base` that define `method` (a subclass overriding it would take the calls
+    that the theorem about base.method speaks of)"""
+    import ast
+    import os
+
+    with open(os.path.join(env.SRC, "saml2", src_rel)) as f:
+        tree = ast.parse(f.read())
+    return [c.name for c in tree.body if isinstance(c, ast.ClassDef) and c.name != base
+            and any(isinstance(x, (ast.FunctionDef, ast.AsyncFunctionDef, ast.Assign)) and
+                    (getattr(x, "name", None) == method or
+                     any(getattr(t, "id", None) == method for t in getattr(x, "targets", []))) for x in c.body)]
+
+
+def slice_cmdline():
+    """CryptoBackendXmlSec1.validate_signature, the --verify command line: from `com_list = [...]` up to (not
+    including) the `try:` that runs it; the harness adds the header and `return com_list`.  Whatever the method does
+    to the list in between (e.g. options that depend on the version of the binary) is part of the block."""
+    import ast
+
+    def pick(body):
+        i = _one([k for k, st in enumerate(body) if _is_assign_to(st, "com_list")])
+        j = _one([k for k, st in enumerate(body) if isinstance(st, ast.Try)])
+        return None if i is None or j is None or j <= i else (i, j - 1)
+
+    return _cut("sigver.py", "CryptoBackendXmlSec1.validate_signature", "sigver_validate_signature_cmdline",
+                "def validate_signature__cmdline(self, cert_file, cert_type, node_name, node_id, tmp):", pick,
+                "        return com_list\n")
 
 
 def slice_assertion_sig():
@@ -1060,6 +1444,10 @@ def src2_items():
           "ignore_calls": ["logger.debug", "logger.error"],
           "calls": {"self.sec.check_signature": lambda a: "(check_sig %s %s %s)" % tuple(a) if len(a) == 3 else "PErr",
                     "class_name": lambda a: '(p2_attr_x %s "c_node_name")' % a[0] if len(a) == 1 else "PErr"}}),
+        # the xmlsec1 --verify command line: confined to the certificate file, for every version of the binary
+        (slice_cmdline(), "validate_signature__cmdline",
+         {"name": "src2_verify_cmdline", "params": ["self", "cert_file", "cert_type", "node_name", "node_id", "tmp"],
+          "attr_errors": True}),
         # every plain Assertion of a Response goes through _assertion with verified = False
         (slice_plain_assertions(), "parse_assertion__plain",
          {"name": "src2_plain_assertions", "params": ["self", "keys"], "attr_errors": True,
